@@ -26,6 +26,6 @@ prop("C04", lean_props=["C04", "Tables"])
 
 # tracks register their properties in their own files (bin/props_<track>.py: `def register(prop, TB_COMMON)`)
 import importlib, os, sys
-for _t in ("thrift2", "pb", "idl", "gen"):
+for _t in ("thrift2", "thrift3", "pb", "idl", "gen"):
     if os.path.exists(os.path.join(os.path.dirname(os.path.abspath(__file__)), f"props_{_t}.py")):
         importlib.import_module(f"props_{_t}").register(prop, TB_COMMON)
